@@ -312,10 +312,18 @@ fn check_drops(cx: &mut Ctx, fam: &'static str, what: &str) {
 }
 
 const SIZES: [usize; 7] = [300, 513, 1000, 1025, 4097, 5000, 66_000];
+/// a container size; past 65 536 in a quarter of the draws where the workload can afford it
+fn pick_size(r: &mut u64, allow_huge: bool) -> usize {
+    if allow_huge && xs(r) % 4 == 0 {
+        66_000
+    } else {
+        SIZES[(xs(r) % 6) as usize]
+    }
+}
 
 #[cfg(feature = "fc-alloc")]
 fn big_futures(cx: &mut Ctx, fam: &'static str, r: &mut u64) -> String {
-    let n = SIZES[(xs(r) % SIZES.len() as u64) as usize];
+    let n = pick_size(r, true);
     // (beyond 65 536 children only with parked wakers fired together: a handful of polls; one poll per wake-up would
     // cost n polls of O(n) each)
     let huge = n > 10_000;
@@ -467,15 +475,15 @@ fn big_streams(cx: &mut Ctx, fam: &'static str, r: &mut u64) -> String {
     // either many inputs with few items, or few inputs with very many items (past 65 536 polls / items)
     let wide = xs(r) % 2 == 0;
     // (66 000 inputs only for zip, whose cost per row is linear; merge and chain pay O(n) per item)
-    let nsizes = if fam == "C09" { SIZES.len() } else { SIZES.len() - 1 };
-    let n = if wide { SIZES[(xs(r) % nsizes as u64) as usize] } else { 1 + (xs(r) % 5) as usize };
+    let n = if wide { pick_size(r, fam == "C09") } else { 1 + (xs(r) % 5) as usize };
     let huge = n > 10_000;
     let later = huge || xs(r) % 2 == 0;
     let one = !huge && xs(r) % 4 == 0;
     let tuple = !wide && (n == 3 || n == 5) && xs(r) % 2 == 0 && matches!(fam, "C08" | "C17");
     let every = [0u32, 2, 3, 7][(xs(r) % 4) as usize];
     let base: u32 = if wide { 3 } else { 66_000 + (xs(r) % 5_000) as u32 };
-    let lens: Vec<u32> = (0..n).map(|i| if wide { (i as u32 * 7 + base) % 5 } else { base / n as u32 + (i as u32 * 13) % 50 }).collect();
+    // (zip ends with its shortest input: no empty inputs there, or a wide zip would be over after its first poll)
+    let lens: Vec<u32> = (0..n).map(|i| if wide { if fam == "C09" { 3 + (i as u32 * 7) % 3 } else { (i as u32 * 7 + base) % 5 } } else { base / n as u32 + (i as u32 * 13) % 50 }).collect();
     let what = format!("{} {fam} of {n} streams (", if tuple { "tuple" } else { "Vec" });
     let what = what + &format!("{} items in total, Pending before every {every}-th item, {}, fire {})", lens.iter().map(|l| *l as u64).sum::<u64>(), if later { "wake-later" } else { "self-wake" }, if one { "one at a time" } else { "all at once" });
     reset_counters(n);
@@ -579,12 +587,16 @@ fn big_group(cx: &mut Ctx, streams: bool, r: &mut u64) -> String {
     use futures_concurrency::stream::StreamGroup;
     let prop: &'static str = if streams { "C12" } else { "C11" };
     // churn: `live` members at a time and `total` inserts over the run (slot reuse all the way), or one big wave
-    let wave = xs(r) % 3 == 0;
-    let live = if wave { SIZES[(xs(r) % (SIZES.len() as u64 - 1)) as usize] } else { 1 + (xs(r) % 5) as usize };
+    let wave = xs(r) % 2 == 0;
+    let live = if wave { pick_size(r, false) } else { 1 + (xs(r) % 5) as usize };
+    // in half of the waves 70 % of the members are removed before the first poll; in half of the histories every
+    // member is Pending at least once (so that a whole sweep of the group sees nothing but Pending members)
+    let with_removal = wave && xs(r) % 2 == 0;
+    let all_pend = xs(r) % 2 == 0;
     let total: usize = if wave { live + 50 } else { 66_000 + (xs(r) % 6_000) as usize };
     let later = xs(r) % 2 == 0;
     let cap0 = [0usize, 1, 300][(xs(r) % 3) as usize];
-    let what = format!("{}::with_capacity({cap0}): {total} inserts, {live} members live at a time, {}", if streams { "StreamGroup" } else { "FutureGroup" }, if later { "wake-later" } else { "self-wake" });
+    let what = format!("{}::with_capacity({cap0}): {total} inserts, {live} members live at a time{}{}, {}", if with_removal { ", 70 % removed before the first poll" } else { "" }, if all_pend { ", every member pends first" } else { "" }, if streams { "StreamGroup" } else { "FutureGroup" }, if later { "wake-later" } else { "self-wake" });
     reset_counters(0);
     let per_item = 2u32;
     let mut got: Vec<(u32, u32)> = vec![];
@@ -597,7 +609,7 @@ fn big_group(cx: &mut Ctx, streams: bool, r: &mut u64) -> String {
             let mut finished = 0usize;
             let mut polls = 0u64;
             let mut live_keys = vec![];
-            let mut removed_done = !wave;
+            let mut removed_done = !with_removal;
             'outer: loop {
                 while inserted < total && g.len() < live {
                     let id = inserted as u32;
@@ -717,7 +729,7 @@ fn big_group(cx: &mut Ctx, streams: bool, r: &mut u64) -> String {
             inserted
         }};
     }
-    let inserted = if streams { run_group!(StreamGroup::<SS>::with_capacity(cap0), |id: u32| SS::new(id, per_item, 2, later), true) } else { run_group!(FutureGroup::<SFI>::with_capacity(cap0), |id: u32| SFI(SF::new(id, id % 3, later, true)), false) };
+    let inserted = if streams { run_group!(StreamGroup::<SS>::with_capacity(cap0), |id: u32| SS::new(id, per_item, if all_pend { 1 } else { 2 }, later), true) } else { run_group!(FutureGroup::<SFI>::with_capacity(cap0), |id: u32| SFI(SF::new(id, if all_pend { 1 + id % 2 } else { id % 3 }, later, true)), false) };
     if cx.msgs.is_empty() && cx.inconclusive.is_none() {
         if inserted != total {
             cx.v(&[prop], format!("{what}: the run ended after {inserted} inserts"));
@@ -980,6 +992,17 @@ pub fn run(prop: &str, case_seed: u64) -> ExecOut {
                 "C11" => big_group(&mut cx, false, &mut r),
                 "C12" => big_group(&mut cx, true, &mut r),
                 "C13" | "C15" => big_pipeline(&mut cx, leak(prop), &mut r),
+                "C01" | "C16" | "C20" => match xs(&mut r) % 10 {
+                    0 => big_futures(&mut cx, "C04", &mut r),
+                    1 => big_futures(&mut cx, "C05", &mut r),
+                    2 => big_futures(&mut cx, "C07", &mut r),
+                    3 => big_futures(&mut cx, "race", &mut r),
+                    4 => big_streams(&mut cx, "C08", &mut r),
+                    5 => big_streams(&mut cx, "C09", &mut r),
+                    6 => big_group(&mut cx, true, &mut r),
+                    7 | 8 => big_group(&mut cx, false, &mut r),
+                    _ => big_futures(&mut cx, "C04", &mut r),
+                },
                 _ => match xs(&mut r) % 12 {
                     0 => big_futures(&mut cx, "C04", &mut r),
                     1 => big_futures(&mut cx, "C05", &mut r),
